@@ -230,7 +230,14 @@ func RunAndEval(c *Ctx, h *History, rng *Rand, eval func(*Ctx, *History, *Outcom
 	o := Run(h, rng)
 	tmp := &Ctx{}
 	if h.HasRaw() {
-		key := EvalRaw(c, h, o)
+		ha, oa := h, o
+		if h.Faulty() && o.Err != "noframes" {
+			ha, oa = h.Accepted(o)
+		}
+		if o.Err == "noframes" {
+			return o, ""
+		}
+		key := EvalRaw(c, ha, oa)
 		return o, key
 	}
 	if h.Faulty() {
